@@ -22,7 +22,7 @@ REQUIRED = {
     "mean_recombination_checks": 20, "round_trips": 6, "cem_samples_checked": 500,
     "cem_updates_checked": 20, "train_cmaes_runs": 1,
 }
-TIMEOUT = {"quick": 1200, "thorough": 3400}
+TIMEOUT = {"quick": 1200, "thorough": 7000}
 ASSUMPTIONS = ["population >= 2 (population 1 is rejected loudly)",
                "ties in fitness: any valid elite / mu set accepted",
                "symmetry within 1e-5 * max|C|"]
@@ -30,7 +30,7 @@ ASSUMPTIONS = ["population >= 2 (population 1 is rejected loudly)",
 
 def gen_cases(tier, seed):
     rng = np.random.default_rng(seed + 1616)
-    k = 1 if tier == "quick" else 10
+    k = 1 if tier == "quick" else 40
     cases = []
     for i in range(20 * k):
         cases.append(dict(kind="cmaes", dim=int(rng.integers(1, 9)),
